@@ -138,7 +138,11 @@ def replay(model, raw_history):
 # ---------------------------------------------------------------------------
 # canonical snapshots (used only to deduplicate; over-fine, never over-coarse)
 
-def canon_obj(o, depth=0, seen=None):
+def canon_obj(o, depth=0, seen=None, ids=None):
+    """Structural snapshot.  `ids` (shared between all roots of one state, see canon_state) records the identity of
+    every mutable container met, so that ALIASING is part of the snapshot: two states in which the same values are held
+    by one shared list / dict / object in the one and by two separate ones in the other are different states (they have
+    different futures as soon as somebody mutates the container)."""
     from cryptography.hazmat.primitives.asymmetric import ec, rsa, ed25519, ed448, x25519, x448
     import types
     if seen is None:
@@ -149,12 +153,18 @@ def canon_obj(o, depth=0, seen=None):
         return ("bytearray", bytes(o))
     if depth > 12:
         return ("deep", type(o).__qualname__)
+    tagid = ()
+    if ids is not None and isinstance(o, (list, dict, set, bytearray)):
+        if id(o) in ids:
+            return ("alias-of", ids[id(o)])
+        ids[id(o)] = len(ids)
+        tagid = ("#%d" % ids[id(o)],)
     if isinstance(o, (list, tuple)):
-        return (type(o).__name__,) + tuple(canon_obj(x, depth + 1, seen) for x in o)
+        return (type(o).__name__,) + tagid + tuple(canon_obj(x, depth + 1, seen, ids) for x in o)
     if isinstance(o, (set, frozenset)):
-        return ("set",) + tuple(sorted((repr(canon_obj(x, depth + 1, seen)) for x in o)))
+        return ("set",) + tagid + tuple(sorted((repr(canon_obj(x, depth + 1, seen, ids)) for x in o)))
     if isinstance(o, dict):
-        return ("dict",) + tuple((repr(k), canon_obj(v, depth + 1, seen)) for k, v in o.items())
+        return ("dict",) + tagid + tuple((repr(k), canon_obj(v, depth + 1, seen, ids)) for k, v in o.items())
     if isinstance(o, (types.FunctionType, types.BuiltinFunctionType, types.MethodType, type, types.ModuleType)):
         return ("named", getattr(o, "__module__", ""), getattr(o, "__qualname__", getattr(o, "__name__", "?")))
     crypto_priv = (ec.EllipticCurvePrivateKey, rsa.RSAPrivateKey, ed25519.Ed25519PrivateKey, ed448.Ed448PrivateKey,
@@ -170,13 +180,26 @@ def canon_obj(o, depth=0, seen=None):
     seen = seen | {id(o)}
     mod = type(o).__module__ or ""
     if hasattr(o, "__dict__") and (mod.startswith("joserfc") or mod.startswith("cryptography") or mod.startswith("mc.")):
-        return ("obj", mod, type(o).__qualname__) + tuple((k, canon_obj(v, depth + 1, seen)) for k, v in sorted(vars(o).items()))
+        if ids is not None:
+            if id(o) in ids:
+                return ("alias-of", ids[id(o)])
+            ids[id(o)] = len(ids)
+            tagid = ("#%d" % ids[id(o)],)
+        return ("obj", mod, type(o).__qualname__) + tagid + tuple((k, canon_obj(v, depth + 1, seen, ids)) for k, v in sorted(vars(o).items()))
     if mod.startswith("cryptography") or mod.startswith("hashlib") or mod in ("_hashlib", "builtins", "re", "typing", "abc", "functools"):
         return ("opaque-stateless", mod, type(o).__qualname__, repr(o) if mod in ("re",) else "")
     return ("opaque", mod, type(o).__qualname__, id(o))
 
 
-def canon_modules(prefix="joserfc"):
+def canon_state(*roots, prefix="joserfc"):
+    """Snapshot of the fixtures `roots` and of all library state, with one identity table (aliasing between a fixture and
+    library-held state is visible)."""
+    ids = {}
+    fx = tuple(canon_obj(r, ids=ids) for r in roots)
+    return (fx, canon_modules(prefix, ids))
+
+
+def canon_modules(prefix="joserfc", ids=None):
     """Snapshot of every module-level and class-level mutable of the library."""
     out = []
     for name in sorted(sys.modules):
@@ -200,12 +223,12 @@ def canon_modules(prefix="joserfc"):
                         continue
                     if type(av).__name__ in ("cached_property", "member_descriptor", "getset_descriptor", "_abc_data"):
                         continue
-                    attrs.append((ak, canon_obj(av)))
+                    attrs.append((ak, canon_obj(av, ids=ids)))
                 out.append((name, k, "class", tuple(attrs)))
             elif isinstance(v, types.FunctionType):
                 continue
             else:
                 if getattr(type(v), "__module__", "").startswith("typing") or k in ("annotations",):
                     continue
-                out.append((name, k, canon_obj(v)))
+                out.append((name, k, canon_obj(v, ids=ids)))
     return tuple(out)
